@@ -643,6 +643,74 @@ example : ∀ h' c,
   have h1 : id ≠ 1 := by simp at hid; omega
   exact ⟨b, by rw [getB_set_ne _ h1, getB_set_ne _ h0]; exact hb, rfl, rfl⟩
 
+/-! ### clone_deep over histories: reduction to ownership + one-statement footprint (extension round) -/
+
+/-- root `k` owns the set of blocks `S`: its handle lies in `S`, `S` is closed under the handles its blocks store, and no
+other root and no block outside `S` holds a handle into `S` -/
+def Iso (σ : State) (k : Nat) (S : Nat → Prop) : Prop :=
+  (∀ id, handleOf (slotV σ k) = some id → S id) ∧
+  (∀ id b, S id → getB σ.heap id = .ok b → ∀ v ∈ bvals b, ∀ c, handleOf v = some c → S c) ∧
+  (∀ j, j ≠ k → ∀ id, handleOf (slotV σ j) = some id → ¬ S id) ∧
+  (∀ id b, ¬ S id → getB σ.heap id = .ok b → ∀ v ∈ bvals b, ∀ c, handleOf v = some c → ¬ S c)
+
+/-- the clone statement establishes ownership: in the state after an executed `root k = q.clone()` root `k` owns its blocks -/
+def clone_isolated_full : Prop :=
+  ∀ (n k : Nat) (ops1 : List Op) (q : Path),
+    (applyOp true (run true (initState n) ops1) (.clone k q)).2 = .ok () →
+    ∃ S, Iso (applyOp true (run true (initState n) ops1) (.clone k q)).1 k S
+
+/-- the footprint of one statement: a statement that does not mention root `k` leaves root `k`, the cells of the blocks it
+owns and the ownership itself unchanged -/
+def step_footprint_full : Prop :=
+  ∀ (σ : State) (op : Op) (k : Nat) (S : Nat → Prop), Inv σ [] → Iso σ k S → mentions k op = false →
+    Iso (applyOp true σ op).1 k S ∧ slotV (applyOp true σ op).1 k = slotV σ k ∧
+    ∀ id, S id → (applyOp true σ op).1.heap[id]? = σ.heap[id]?
+
+/-- `clone_deep_full` for a clone statement that was executed (not refused) -/
+def clone_deep_exec_full : Prop :=
+  ∀ (n k : Nat) (ops1 ops2 : List Op) (q : Path) (f : Nat) (tr : Tree),
+    (applyOp true (run true (initState n) ops1) (.clone k q)).2 = .ok () →
+    (∀ op ∈ ops2, mentions k op = false) →
+    content f (run true (initState n) (ops1 ++ [.clone k q])).heap (slotV (run true (initState n) (ops1 ++ [.clone k q])) k) = some tr →
+    content f (run true (initState n) (ops1 ++ [.clone k q] ++ ops2)).heap
+      (slotV (run true (initState n) (ops1 ++ [.clone k q] ++ ops2)) k) = some tr
+
+/-- histories preserve an owned root: induction over the statements, each step by the one-statement footprint -/
+theorem owned_root_stable (hstep : step_footprint_full) (k : Nat) (S : Nat → Prop) (f : Nat) (tr : Tree) :
+    ∀ (ops : List Op) (σ : State), Inv σ [] → Iso σ k S → (∀ op ∈ ops, mentions k op = false) →
+      content f σ.heap (slotV σ k) = some tr →
+      content f (run true σ ops).heap (slotV (run true σ ops) k) = some tr
+  | [], _, _, _, _, hc => hc
+  | op :: rest, σ, inv, iso, hm, hc => by
+    obtain ⟨iso1, hslot, hcells⟩ := hstep σ op k S inv iso (hm op (by simp))
+    obtain ⟨inv1, _, _⟩ := inv.applyOp op
+    simp only [run]
+    refine owned_root_stable hstep k S f tr rest _ inv1 iso1 (fun o ho => hm o (by simp [ho])) ?_
+    rw [hslot]
+    exact content_closed iso.2.1 hcells f _ tr iso.1 hc
+
+/-- **clone_deep, reduced to its two heap-graph facts** — machine-checked: if the clone statement establishes ownership
+(`clone_isolated_full`) and no statement touches what a root it does not mention owns (`step_footprint_full`), then after
+an executed `root k = q.clone()` no history of statements that do not mention root `k` changes the tree root `k` denotes. -/
+theorem clone_deep_reduction (hiso : clone_isolated_full) (hstep : step_footprint_full) : clone_deep_exec_full := by
+  intro n k ops1 ops2 q f tr hex hm hc
+  obtain ⟨S, iso⟩ := hiso n k ops1 q hex
+  obtain ⟨inv0, _, _⟩ := (Inv.init n).run ops1 (initState n) rfl
+  obtain ⟨inv1, _, _⟩ := inv0.applyOp (.clone k q)
+  have hrun : run true (initState n) (ops1 ++ [.clone k q]) = (applyOp true (run true (initState n) ops1) (.clone k q)).1 := by
+    rw [run_append]; rfl
+  rw [run_append, hrun]
+  rw [hrun] at hc
+  exact owned_root_stable hstep k S f tr ops2 _ inv1 iso hm hc
+
+/-- ownership is satisfiable: a root holding a scalar owns the empty set; a root holding the only handle to a leaf block owns it -/
+example : Iso (initState 2) 0 (fun _ => False) := by
+  refine ⟨?_, ?_, ?_, ?_⟩
+  · intro id h; simp [initState, slotV, handleOf] at h
+  · intro _ _ h; exact h.elim
+  · intro _ _ _ _ h; exact h
+  · intro _ _ _ _ _ _ _ _ h; exact h
+
 /-! ## history_safe: no sequence of operations touches freed memory, leaks, or destroys a shared child twice -/
 
 /-- The full statement: for EVERY history of guarded statements from the initial state (any number of root
